@@ -223,6 +223,7 @@ func sweepInProcess(repo, vroot string, propIDs []string, shard, nshards int, kn
 			continue
 		}
 		res["compiles"] = true
+		prepareInlining(w)
 		fired := map[string][]string{}
 		for _, id := range propIDs {
 			r := newReport(id)
